@@ -4,6 +4,7 @@ import (
 	"bytes"
 	"encoding/binary"
 	"fmt"
+	"math"
 	"reflect"
 
 	"github.com/openacid/slim/encode"
@@ -113,6 +114,12 @@ func (v *ValSpec) Encoder() encode.Encoder {
 			panic(err)
 		}
 		return e
+	case "f64":
+		e, err := encode.NewTypeEncoderEndian(float64(0), binary.LittleEndian)
+		if err != nil {
+			panic(err)
+		}
+		return e
 	case "structLE":
 		e, err := encode.NewTypeEncoderEndian(TStruct{}, binary.LittleEndian)
 		if err != nil {
@@ -163,6 +170,12 @@ func (v *ValSpec) Slice() interface{} {
 		s := make([]defOff, n)
 		for i := range s {
 			s[i] = defOff(v.Ints[i])
+		}
+		return s
+	case "f64":
+		s := make([]float64, n)
+		for i := range s {
+			s[i] = math.Float64frombits(uint64(v.Ints[i]))
 		}
 		return s
 	case "u16":
@@ -246,6 +259,8 @@ func (v *ValSpec) At(i int) interface{} {
 		return v.Ints[i]
 	case "defI64":
 		return defOff(v.Ints[i])
+	case "f64":
+		return math.Float64frombits(uint64(v.Ints[i]))
 	case "u16":
 		return uint16(v.Ints[i])
 	case "u32":
@@ -283,7 +298,7 @@ func (v *ValSpec) RefEnc(i int) []byte {
 		return le(uint64(v.Ints[i]), 2)
 	case "i32", "u32":
 		return le(uint64(v.Ints[i]), 4)
-	case "i64", "u64", "int", "defI64":
+	case "i64", "u64", "int", "defI64", "f64":
 		return le(uint64(v.Ints[i]), 8)
 	case "str16":
 		s := v.Strs[i]
@@ -331,6 +346,12 @@ func sameVal(got, want interface{}) bool {
 			return got == nil && len(wb) == 0
 		}
 		return bytes.Equal(gb, wb)
+	}
+	if wf, ok := want.(float64); ok {
+		// the value that was supplied, not one that compares equal to it: +0 and
+		// -0 are == and are different values with different encodings
+		gf, ok2 := got.(float64)
+		return ok2 && math.Float64bits(gf) == math.Float64bits(wf)
 	}
 	return reflect.DeepEqual(got, want)
 }
@@ -550,7 +571,9 @@ func genVals(r *RNG, kind string, n int, style int) *ValSpec {
 			if i == 0 || ids[i] != ids[i-1] {
 				for {
 					var x int64
-					if small {
+					if kind == "f64" {
+						x = floatBits(r)
+					} else if small {
 						x = int64(ids[i]) % mod
 					} else {
 						x = extremeInt(r, kind)
@@ -568,6 +591,22 @@ func genVals(r *RNG, kind string, n int, style int) *ValSpec {
 	return v
 }
 
+// floatBits: float64 values as bit patterns, heavy on the two zeros (equal
+// under ==, different encodings), no NaN.
+func floatBits(r *RNG) int64 {
+	switch r.Intn(8) {
+	case 0, 1, 2:
+		return 0 // +0
+	case 3, 4:
+		return math.MinInt64 // -0
+	case 5:
+		return int64(math.Float64bits([]float64{1, -1, 1.5, -1.5, math.Inf(1), math.Inf(-1), math.MaxFloat64, math.SmallestNonzeroFloat64}[r.Intn(8)]))
+	case 6:
+		return int64(math.Float64bits(float64(r.Intn(1000)) / 8))
+	}
+	return int64(math.Float64bits(-float64(r.Intn(1000000)) / 1024))
+}
+
 func sameEnc(kind string, a, b int64) bool {
 	switch kind {
 	case "i8":
@@ -582,7 +621,7 @@ func sameEnc(kind string, a, b int64) bool {
 	return a == b
 }
 
-var allValKinds = []string{"none", "i8", "i16", "i32", "i64", "u16", "u32", "u64", "int", "str16", "bytesN", "structLE", "structBE", "rawstr", "defI64", "cpbytes"}
+var allValKinds = []string{"none", "i8", "i16", "i32", "i64", "u16", "u32", "u64", "int", "str16", "bytesN", "structLE", "structBE", "rawstr", "defI64", "cpbytes", "f64"}
 
 // PassBytes: a user-defined variable-size encoder that hands the caller's
 // bytes through unchanged (C20: the builder must copy them).
